@@ -2,6 +2,7 @@ import Uflow.Model.FrameQ
 import Uflow.Lemmas.FrameQAckGroup
 import Uflow.Lemmas.FrameQExamples
 import Uflow.Lemmas.FrameQNoTrap
+import Uflow.Lemmas.FrameQCullRun
 
 /-!
 # C15 — only genuine, fresh acknowledgements change sender state
@@ -155,7 +156,8 @@ buffer base, in order (`pos baseId < pos f0 < pos f1 < len`), and are marked `ac
 *Partial* with respect to "never traps in reachable states": `AckInv` is shown to hold initially
 (`C15_ackInv_init`) and to be preserved by `acknowledgeGroup` (here) and `push`
 (`C15_ackInv_push`, under an explicit length bound), but its preservation by
-`cull` / `advanceTransferWindow` / `forgetFrames` (`Reorder.advance`, log draining) is not proved. -/
+`cull` / `advanceTransferWindow` / `forgetFrames` (`Reorder.advance`, log draining) is not proved here.
+(Completed below: `C15_ackInv_cull_ops`, `C15_no_trap`, under the window relations `WInv`.) -/
 theorem C15_no_trap_partial (s : State) (ack : AckGroup) (rtt : Option Nat) (hinv : AckInv s) :
     ∃ s' frs, acknowledgeGroup s ack rtt = .ok (s', frs) ∧ AckInv s' :=
   acknowledgeGroup_no_trap s ack rtt hinv
@@ -247,5 +249,98 @@ example : AckInv exS5acked ∧ exS5acked.reorder.count = 2 ∧ exS5acked.reorder
   obtain ⟨s', frs, h, hinv'⟩ := C15_no_trap_partial exS5 exGood none hinv
   have : exS5acked = s' := by unfold exS5acked; rw [h]
   rw [this]; exact hinv'
+
+/-! ### Trap freedom in reachable states
+
+`QOp` (`Uflow/Lemmas/FrameQCullRun.lean`) lists what the half connection does to the frame queue:
+`push` (a data frame is sent; the model's `push` itself tests `canPush`, as `emit_data_frames` does),
+`ack g rtt` (`acknowledge_group`, any group), `advance nb rtt` (`advance_transfer_window`, any id),
+`forget thresh rtt` (`forget_frames`, any threshold), `feedback now` (`get_feedback`). `runQ ops s l` runs a list
+of them, stopping at the first trap. `WInv` is `AckInv` plus the window relations
+(`reorder.maxSpan = winSize + tailSize < 2^31`, the log is contiguous up to `logNext`, `logNext` is at most a
+window ahead of `winBase`, the log reaches at most `tailSize` behind `winBase`), which keep the log no longer
+than the reorder buffer's span; that is what makes `cull_log_entries` (`cull`: `Reorder.advance` + `drain`) keep
+the reorder buffer inside the log. -/
+
+variable {F : Type}
+
+/-- The run-level invariant holds in every state reached from `FrameQ.init` (window size + tail `< 2^31`; the
+library uses 4096 + 4096). -/
+theorem C15_winv_reachable (ops : Rate.FloatOps F) (size tail base : Nat) (hb : base < 2^32)
+    (hs : size + tail < 2^31) (l : List QOp) (s : State)
+    (h : runQ ops (init size tail base) l = .ok s) : WInv s :=
+  WInv_run ops l _ s (WInv_init size tail base hb hs) h
+
+/-- C15 (trap freedom): in every state reachable from `FrameQ.init` by `push` / `acknowledgeGroup` /
+`advanceTransferWindow` / `forgetFrames` / `getFeedback` with arbitrary arguments, `acknowledgeGroup` with an
+arbitrary group does not trap (no `unwrap` on a missing log entry, no endless `nackRun`), and neither do
+`advanceTransferWindow` and `forgetFrames` (no out-of-range `drain`). -/
+theorem C15_no_trap (ops : Rate.FloatOps F) (size tail base : Nat) (hb : base < 2^32)
+    (hs : size + tail < 2^31) (l : List QOp) (s : State)
+    (h : runQ ops (init size tail base) l = .ok s) :
+    (∀ ack rtt, ∃ s' frs, acknowledgeGroup s ack rtt = .ok (s', frs)) ∧
+    (∀ nb rtt, ∃ s', advanceTransferWindow s nb rtt = .ok s') ∧
+    (∀ thresh rtt, ∃ s', forgetFrames s thresh rtt = .ok s') := by
+  have hw := C15_winv_reachable ops size tail base hb hs l s h
+  refine ⟨fun ack rtt => ?_, fun nb rtt => ?_, fun th rtt => ?_⟩
+  · obtain ⟨s', frs, he, _⟩ := WInv_ack s ack rtt hw; exact ⟨s', frs, he⟩
+  · obtain ⟨s', he, _⟩ := WInv_atw s nb rtt hw; exact ⟨s', he⟩
+  · obtain ⟨s', he, _⟩ := WInv_forget s th rtt hw; exact ⟨s', he⟩
+
+/-- Consequently a run can only stop in `getFeedback` (its `now - last_send_time` subtractions): every run
+without `feedback` operations goes through. -/
+theorem C15_run_no_trap (ops : Rate.FloatOps F) (size tail base : Nat) (hb : base < 2^32)
+    (hs : size + tail < 2^31) (l : List QOp) (hl : ∀ op ∈ l, op.isFeedback = false) :
+    ∃ s, runQ ops (init size tail base) l = .ok s :=
+  WInv_run_ok ops l _ (WInv_init size tail base hb hs) hl
+
+/-- `AckInv` is preserved by the three operations left open by `C15_no_trap_partial`, given the window
+relations `WInv`. -/
+theorem C15_ackInv_cull_ops (s : State) (hw : WInv s) :
+    (∀ nb rtt s', advanceTransferWindow s nb rtt = .ok s' → AckInv s') ∧
+    (∀ thresh rtt s', forgetFrames s thresh rtt = .ok s' → AckInv s') ∧
+    (∀ nb rtt, nb < 2^32 → wsub32 nb s.logBase ≤ s.frames.length → ∃ s', cull s nb rtt = .ok s' ∧ AckInv s') := by
+  refine ⟨fun nb rtt s' he => ?_, fun th rtt s' he => ?_, fun nb rtt hnb hk => ?_⟩
+  · obtain ⟨s1, h1, h2⟩ := WInv_atw s nb rtt hw
+    rw [h1] at he; cases he; exact h2.ack
+  · obtain ⟨s1, h1, h2⟩ := WInv_forget s th rtt hw
+    rw [h1] at he; cases he; exact h2.ack
+  · obtain ⟨s', h1, h2, _⟩ := cull_inv s nb rtt hw.ack hnb hk hw.len_le (by rw [hw.ms]; exact hw.small)
+    exact ⟨s', h1, h2⟩
+
+/-- A script for the non-vacuity check: five frames 100 … 104 (window 16, tail 1), the group acknowledging
+100, 102, 104 (the reorder buffer then holds 102 and 104 behind the hole 101), the transfer window advanced to
+105 — which culls the log up to 104 and makes `Reorder.advance` skip 101 and 103 and release 102 and 104 —, a
+group straddling the culled part, `forget_frames`, and two more frames. -/
+def exQ : List QOp :=
+  [ .push 100 1 [(1, 0)] true, .push 200 2 [(2, 0), (2, 1)] false, .push 300 3 [] true,
+    .push 400 4 [(3, 0)] true, .push 500 5 [(4, 0)] false,
+    .ack { baseId := 100, bitfield := 21, nonce := false } none,
+    .advance 105 (some 7),
+    .ack { baseId := 103, bitfield := 3, nonce := true } none,
+    .forget 6 none,
+    .push 600 6 [] true, .push 700 7 [] false,
+    .ack { baseId := 105, bitfield := 2, nonce := false } (some 3) ]
+
+/-- The operations of the script up to the window advance, applied directly (no `FloatOps` needed): the log is
+culled to the single frame 104, the reorder buffer is empty with base 105, and one loss interval (101 lost, then 102, 103, 104 counted into
+it) was opened for the skipped frames. -/
+example :
+    (match acknowledgeGroup (push (push (push (push (push (init 16 1 100) 100 1 [(1, 0)] true) 200 2
+          [(2, 0), (2, 1)] false) 300 3 [] true) 400 4 [(3, 0)] true) 500 5 [(4, 0)] false)
+        { baseId := 100, bitfield := 21, nonce := false } none with
+     | .ok (s1, _) =>
+       decide (s1.reorder.count = 2 ∧ s1.reorder.baseId = 101) &&
+       (match advanceTransferWindow s1 105 (some 7) with
+        | .ok s2 => decide (s2.logBase = 104 ∧ s2.frames.length = 1 ∧ s2.reorder.count = 0 ∧
+            s2.reorder.baseId = 105 ∧ s2.winBase = 105 ∧ s2.intervals.map (·.length) = [4])
+        | .error _ => false)
+     | .error _ => false) = true := by decide +kernel
+
+/-- Non-vacuity of `C15_no_trap` / `C15_winv_reachable`: the script runs (by `C15_run_no_trap`), for any
+float operations. -/
+example (ops : Rate.FloatOps F) : ∃ s, runQ ops (init 16 1 100) exQ = .ok s ∧ (100 : Nat) < 2^32 ∧ 16 + 1 < 2^31 := by
+  obtain ⟨s, h⟩ := C15_run_no_trap ops 16 1 100 (by decide) (by decide) exQ (by decide)
+  exact ⟨s, h, by decide, by decide⟩
 
 end Uflow.Props.C15
